@@ -1015,6 +1015,14 @@ class Interp:
             return lambda sep, it: sep.join(str(x) for x in self.iterate(it))
         if isinstance(v, collections.deque) and name in ("pop", "popleft", "append", "appendleft", "extend", "clear", "maxlen", "count", "index"):
             return getattr(v, name)
+        if isinstance(v, Marker) and v.name.startswith("dtype:") and name in ("kind", "name"):
+            dt = v.name.split(":", 1)[1]
+            if name == "name":
+                return {"float": "float64", "int": "int64", "bool": "bool", "object": "object", "str": "str"}.get(dt, dt)
+            kind = {"float": "f", "int": "i", "bool": "b", "object": "O", "str": "U"}.get(dt)
+            if kind is None:
+                raise AnalysisAbort(f"dtype.kind of {dt}")
+            return kind
         if isinstance(v, Opaque):
             raise AnalysisAbort(f"attribute {name} of {v!r} is not modelled")
         raise AnalysisAbort(f"attribute {name} on {type(v).__name__} is not modelled (line {getattr(node, 'lineno', '?')})")
@@ -1067,7 +1075,19 @@ class Interp:
         if name == "transpose":
             return lambda *perm: NP.transpose(a, list(perm[0]) if len(perm) == 1 and isinstance(perm[0], (list, tuple)) else (list(perm) or None))
         if name == "astype":
-            return lambda t, copy=True: NP.copy_arr(a, "astype")
+            def astype(t, copy=True):
+                tn = getattr(t, "name", None) or str(t)
+                if isinstance(a.term, tuple) and a.term[:2] == ("in", "items") and a.dtype == "str" and any(k in tn for k in ("float", "int", "complex")):
+                    # an array of text labels converted to numbers: works only when every label reads as a number - and then the
+                    # entries are numbers, no longer the labels
+                    for it_ in a.axes[0]:
+                        try:
+                            float(it_)
+                        except (TypeError, ValueError):
+                            raise NumpyRaise("ValueError", f"could not convert string to float: '{it_}'")
+                    return AArr(a.axes, NP.t_fn("text_as_number", a.term), NP.Buf("astype"), dtype="float" if "float" in tn else "int")
+                return NP.copy_arr(a, "astype")
+            return astype
         if name == "reshape":
             return lambda *shape, **kw: NP.reshape(a, shape[0] if len(shape) == 1 and isinstance(shape[0], (tuple, list)) else shape)
         if name == "fill":
@@ -1343,7 +1363,11 @@ class Interp:
                 if isinstance(x, (SymScalar, int, float)):
                     return AArr((), NP.as_term(x), NP.Buf("np.array"))
                 if isinstance(x, ItemList):
-                    return AArr((tuple(x),), ("in", "items", ((NP.universe(x[0]), ("v", NP.vkey(x))),)), NP.Buf("np.array(items)"))
+                    kinds = {type(i) for i in x}
+                    dt = "str" if kinds == {str} else "int" if kinds <= {int, TInt} else "float" if kinds <= {int, float} else "object"
+                    if dt == "object" and str in kinds and dtype is None:
+                        raise AnalysisAbort("np.array of items mixing text and numbers (NumPy turns them all into text)")
+                    return AArr((tuple(x),), ("in", "items", ((NP.universe(x[0]), ("v", NP.vkey(x))),)), NP.Buf("np.array(items)"), dtype=dt)
                 if isinstance(x, (list, tuple)) and all(isinstance(p, int) and not isinstance(p, bool) for p in x):
                     return NP.IdxArr(x)       # an integer array of positions (index array)
                 if isinstance(x, (list, tuple)) and x and all(isinstance(p, bool) for p in x):
